@@ -12,7 +12,7 @@
    No proofs here. *)
 From Coq Require Import List NArith ZArith Bool.
 From Coq.Strings Require Import Byte.
-From EV Require Import Base.Bytes Base.Zn Base.FreeMod.
+From EV Require Import Base.Bytes Base.Zn Base.FreeMod Gen.Tables.
 Import ListNotations.
 Open Scope Z_scope.
 
@@ -64,7 +64,7 @@ Definition null_issuance : issuance := mkIss VNull VNull 0%N 0%N.
 
 (* ---- ideal range proofs.  RangeProof::new(min_value = 1, exp = 0, min_bits = 52): rangeproof_sign refuses
    min_value > value, and range_proveparams refuses value > i64::MAX when min_value <> 0 *)
-Definition RANGEPROOF_MIN_VALUE : Z := 1.
+Definition RANGEPROOF_MIN_VALUE : Z := Z.of_N CT_RANGEPROOF_MIN_VALUE.   (* regenerated from src/blind.rs on every run *)
 Definition I64_MAX : Z := 2 ^ 63 - 1.
 Definition rp_new (c : gel) (value vbf : Z) (msg : rp_message) (script : bytes) (key : Z) (gen : gel) : option rproof :=
   if (RANGEPROOF_MIN_VALUE <=? value) && (value <=? I64_MAX)
